@@ -19,7 +19,7 @@ PARAMS = [(proto, tr) for proto in ('json', 'xml', 'soap11', 'http-json')
 def event_order(sx, p):
     proto, transport = p
     sched, rec = P.run_scenario(sx, proto, transport)
-    if sched['stage'] == 'unserializable' and proto in ('json', 'http-json'):
+    if sched['stage'] == 'unserializable' and P.out_of(proto) == 'json':
         sx.outside('unserialisable return values are only in scope for the eagerly serialising XML protocols')
     problems = O.check_events(sched, rec)
     sx.observe('problems', problems)
